@@ -72,7 +72,7 @@ timeout: 200
 */
 /*@unit
 name: macro.null0.d5.on
-define: U_D5NULL0, U_LEVEL_ON, U_NO_MEM_WRAPPER_CONTRACTS
+define: U_D5NULL0, U_LEVEL_ON, U_NO_MEM_WRAPPER_CONTRACTS, MEM_PART=1
 debug: 5
 src: mem.c
 enforce: spifmem_realloc
@@ -207,8 +207,6 @@ void *spifmem_realloc(const char *var, const char *filename, unsigned long line,
 __CPROVER_requires(MEM_LEVEL_REQ && ptr == NULL && size == 0)
 __CPROVER_requires(MEMREC_PRE(MEM_TAB) && malloc_rec.cnt < MEMREC_CAP)
 __CPROVER_requires(MEM_FNAME_PRE(filename) && line <= 0xffffffffUL)
-__CPROVER_requires(MEMREC_LOGICAL(MEM_TAB))
-__CPROVER_requires(MEMREC_NODUP_AT(MEM_TAB, vg_r, vg_r2) && MEM_LIVE_PRE_AT(vg_r) && (vg_r2 == vg_r || MEM_LIVE_PRE_AT(vg_r2)))
 __CPROVER_assigns(malloc_rec.cnt, malloc_rec.ptrs, vg_exit, vg_fidx)
 __CPROVER_assigns(malloc_rec.ptrs != NULL: __CPROVER_object_whole(malloc_rec.ptrs))
 __CPROVER_frees(malloc_rec.ptrs)
